@@ -106,6 +106,8 @@ func TestC04(t *testing.T) {
 	seq := 0
 	ms := func(n int) time.Duration { return time.Duration(n) * time.Millisecond }
 	ctx := context.Background()
+	cancelled, cancel := context.WithCancel(ctx)
+	cancel()
 	seen := map[string]bool{}
 	for _, cfgc := range []struct {
 		N, R int
@@ -150,6 +152,12 @@ func TestC04(t *testing.T) {
 				sum.Paths[p.Name()]++
 				var rep Reply
 				op := ""
+				// every seventh operation is called with a context that is already cancelled (callers do that): whatever the reply,
+				// it either did nothing or all of it - an acknowledged operation has reached every copy
+				opctx, how := ctx, ""
+				if rng.Intn(7) == 0 {
+					opctx, how = cancelled, "+cancelled"
+				}
 				switch kind {
 				case "str":
 					switch x := rng.Intn(100); {
@@ -170,7 +178,7 @@ func TestC04(t *testing.T) {
 								val += strings.Repeat("b", n-len(val))
 							}
 						}
-						rep = p.Put(ctx, "c04", key, val, o)
+						rep = p.Put(opctx, "c04", key, val, o)
 						if rep.Ret == "ok" {
 							expiresAt = 0
 							if o.Mode != "" {
@@ -180,17 +188,17 @@ func TestC04(t *testing.T) {
 					case x < 45:
 						op = "expire"
 						d := ms(60 + rng.Intn(100))
-						rep = p.Expire(ctx, "c04", key, d, rng.Intn(2) == 0)
+						rep = p.Expire(opctx, "c04", key, d, rng.Intn(2) == 0)
 						if rep.Ret == "ok" {
 							expiresAt = time.Now().Add(d).UnixMilli()
 						}
 					case x < 60:
 						op = "getput"
-						rep = p.GetPut(ctx, "c04", key, fmt.Sprintf("g%d-%s", j, key))
+						rep = p.GetPut(opctx, "c04", key, fmt.Sprintf("g%d-%s", j, key))
 						expiresAt = 0
 					case x < 75:
 						op = "del"
-						rep = p.Delete(ctx, "c04", key)
+						rep = p.Delete(opctx, "c04", key)
 					default:
 						// wait for the deadline, then let the background sampler's routine remove the key
 						if expiresAt == 0 {
@@ -220,20 +228,20 @@ func TestC04(t *testing.T) {
 					switch x := rng.Intn(100); {
 					case x < 40:
 						op = "incr"
-						rep = p.Incr(ctx, "c04", key, 1+rng.Intn(4))
+						rep = p.Incr(opctx, "c04", key, 1+rng.Intn(4))
 					case x < 60:
 						op = "decr"
-						rep = p.Decr(ctx, "c04", key, 1+rng.Intn(4))
+						rep = p.Decr(opctx, "c04", key, 1+rng.Intn(4))
 					case x < 80:
 						op = "expire"
 						d := ms(80 + rng.Intn(100))
-						rep = p.Expire(ctx, "c04", key, d, true)
+						rep = p.Expire(opctx, "c04", key, d, true)
 						if rep.Ret == "ok" {
 							expiresAt = time.Now().Add(d).UnixMilli()
 						}
 					default:
 						op = "del"
-						rep = p.Delete(ctx, "c04", key)
+						rep = p.Delete(opctx, "c04", key)
 					}
 				case "lock":
 					if _, ok := p.(*pipePath); ok {
@@ -247,7 +255,7 @@ func TestC04(t *testing.T) {
 							tau = ms(300)
 						}
 						var l Locked
-						rep, l = p.Lock(ctx, "c04", key, tau, ms(30))
+						rep, l = p.Lock(opctx, "c04", key, tau, ms(30))
 						if rep.Ret == "ok" {
 							held, heldPath = l, p
 							expiresAt = 0
@@ -257,15 +265,17 @@ func TestC04(t *testing.T) {
 						}
 					case rng.Intn(2) == 0:
 						op = "lease"
-						rep = held.Lease(ctx, ms(250))
+						rep = held.Lease(opctx, ms(250))
 						if rep.Ret == "ok" {
 							expiresAt = time.Now().Add(ms(250)).UnixMilli()
 						}
 						p = heldPath
 					default:
 						op = "unlock"
-						rep = held.Unlock(ctx)
-						held = nil
+						rep = held.Unlock(opctx)
+						if rep.Ret == "ok" || how == "" {
+							held = nil
+						}
 						p = heldPath
 					}
 				}
@@ -273,9 +283,9 @@ func TestC04(t *testing.T) {
 					continue
 				}
 				sum.Evaluations++
-				sig += "/" + op + ":" + rep.Ret + "@" + p.Name()
+				sig += "/" + op + how + ":" + rep.Ret + "@" + p.Name()
 				expired := expiresAt != 0 && time.Now().UnixMilli() >= expiresAt-2
-				evs = append(evs, trace.Ev{"t": "op", "op": op, "ret": rep.Ret, "path": p.Name(), "k": key, "expired": expired,
+				evs = append(evs, trace.Ev{"t": "op", "op": op, "ret": rep.Ret, "path": p.Name() + how, "k": key, "expired": expired,
 					"detail": rep.Err, "copies": copiesOf(c, "c04", key, t0)})
 			}
 			if len(evs) == 0 {
